@@ -13,10 +13,10 @@ func init() {
 	Register(&Prop{
 		Meta: core.Meta{
 			ID: "C31", Title: "IS-IS point-to-point adjacencies follow the three-way handshake and hold timer", Level: "other",
-			Technique:  "guard extraction and value-dependence rules (R-GATE, R-DEP) on the typed AST/go/cfg of the adjacency code: what every state change is control-dependent on, what the hold timer is computed from, which states the timeout check covers, what the local LSP's neighbor list is built from",
-			DesignRef:  "DESIGN.md §4 C31",
-			Decided:    "(1) the adjacency state is set to Up only under `the neighbor's three-way TLV names this system and this circuit` (both the system ID and the circuit ID are compared), and hello processing sets it to Down only under the negation for an adjacency that is Up; (2) the holding time armed at creation and at every later hello is computed from the HoldingTimer field of that hello; (3) the periodic checker applies the holding time to every adjacency that is not already Down (so one that never came Up times out too), takes a timed-out adjacency Down, and disposes and removes a Down adjacency after the grace period on the checker's exit; (4) the IS reachability of the local LSP is built from exactly the neighbors the L2 neighbor managers report as Up, for all interfaces, and both state changes regenerate the LSP.",
-			NotDecided: "timing (that the checker ticks, how long 'eventually' is); the content of the reachability entries; LAN adjacencies.",
+			Technique:   "guard extraction and value-dependence rules (R-GATE, R-DEP) on the typed AST/go/cfg of the adjacency code: what every state change is control-dependent on, what the hold timer is computed from, which states the timeout check covers, what the local LSP's neighbor list is built from",
+			DesignRef:   "DESIGN.md §4 C31",
+			Decided:     "(1) the adjacency state is set to Up only under `the neighbor's three-way TLV names this system and this circuit` (both the system ID and the circuit ID are compared), and hello processing sets it to Down only under the negation for an adjacency that is Up; (2) the holding time armed at creation and at every later hello is computed from the HoldingTimer field of that hello; (3) the periodic checker applies the holding time to every adjacency that is not already Down (so one that never came Up times out too), takes a timed-out adjacency Down, and disposes and removes a Down adjacency after the grace period on the checker's exit; (4) the IS reachability of the local LSP is built from exactly the neighbors the L2 neighbor managers report as Up, for all interfaces, and both state changes regenerate the LSP.",
+			NotDecided:  "timing (that the checker ticks, how long 'eventually' is); the content of the reachability entries; LAN adjacencies.",
 			TrustedBase: stdTrusted,
 		},
 		Run: runC31,
